@@ -7,6 +7,7 @@ mod listx;
 mod model;
 mod rng;
 mod runner;
+mod scen_life;
 mod scen_list;
 mod sched;
 mod shm;
